@@ -13,6 +13,7 @@ Names are spelled in any case (the mapping API casefolds them); the 'name' membe
 """
 from __future__ import annotations
 
+import contextlib
 import io
 import math
 import random
@@ -327,26 +328,67 @@ def diff(a: dict, b: dict, text: bool, uuid_all: bool = True) -> str | None:
 
 
 # ------------------------------------------------------------------------------------------------ round trips
+class HangTimeout(Exception):
+    """A call into the implementation did not return within the limit (a loop that does not end)."""
+
+
+HANG_LIMIT_S = 10.0      # one export / parse of these graphs takes a few milliseconds, also on a loaded machine
+
+
+@contextlib.contextmanager
+def time_limit(seconds: float = HANG_LIMIT_S):
+    """Interrupt the enclosed call into the implementation after `seconds` (main thread only; a no-op elsewhere).  The
+    caller treats HangTimeout like any other exception of the implementation: a failing input."""
+    import signal
+    import threading
+    if threading.current_thread() is not threading.main_thread() or not hasattr(signal, 'setitimer'):
+        yield
+        return
+
+    import time
+
+    def on_alarm(signum, frame):
+        raise HangTimeout(f'no result after {seconds:g} s')
+    outer_left = signal.getitimer(signal.ITIMER_REAL)[0]       # an enclosing limit, if any, goes on afterwards
+    t0 = time.monotonic()
+    old = signal.signal(signal.SIGALRM, on_alarm)
+    signal.setitimer(signal.ITIMER_REAL, seconds)
+    try:
+        yield
+    finally:
+        signal.setitimer(signal.ITIMER_REAL, 0)
+        signal.signal(signal.SIGALRM, old)
+        if outer_left > 0:
+            signal.setitimer(signal.ITIMER_REAL, max(outer_left - (time.monotonic() - t0), 0.01))
+
+
 def roundtrip(spec: dict, mode: dict) -> tuple[str | None, str]:
     """Build, export, parse, compare.  Returns (problem or None, stage).  mode: {'fmt':'binary','version':v,
-    'unicode':u} or {'fmt':'kv2','flat':b,'cull_uuid':b,'unicode':u}."""
+    'unicode':u} or {'fmt':'kv2','flat':b,'cull_uuid':b,'unicode':u}.  Every call into the implementation runs under
+    a time limit and any exception it raises is a problem of that stage (never an error of the check)."""
     from srctools import dmx
-    elems = build(spec)
-    before = canon(elems[0])
+    try:
+        with time_limit():
+            elems = build(spec)
+            before = canon(elems[0])
+    except Exception as e:   # the mapping API of Element / Attribute on valid arguments
+        return f'building the graph raised {type(e).__name__}: {str(e)[:200]}', 'build'
     buf = io.BytesIO()
     try:
-        if mode['fmt'] == 'binary':
-            elems[0].export_binary(buf, version=mode['version'], unicode=mode['unicode'])
-        else:
-            elems[0].export_kv2(buf, flat=mode['flat'], cull_uuid=mode['cull_uuid'], unicode=mode['unicode'])
+        with time_limit():
+            if mode['fmt'] == 'binary':
+                elems[0].export_binary(buf, version=mode['version'], unicode=mode['unicode'])
+            else:
+                elems[0].export_kv2(buf, flat=mode['flat'], cull_uuid=mode['cull_uuid'], unicode=mode['unicode'])
     except Exception as e:   # the data is expressible by construction: an export error loses the graph
         return f'export raised {type(e).__name__}: {e}', 'export'
     data = buf.getvalue()
     try:
-        got, _, _ = dmx.Element.parse(io.BytesIO(data), unicode=(mode['unicode'] == 'silent'))
+        with time_limit():
+            got, _, _ = dmx.Element.parse(io.BytesIO(data), unicode=(mode['unicode'] == 'silent'))
+            after = canon(got)
     except Exception as e:
         return f'parse raised {type(e).__name__}: {str(e)[:200]}', 'parse'
-    after = canon(got)
     d = diff(before, after, text=(mode['fmt'] == 'kv2'),
              uuid_all=not (mode['fmt'] == 'kv2' and mode['cull_uuid'] and not mode['flat']))
     return (None, 'ok') if d is None else (d, 'compare')
